@@ -2,7 +2,7 @@
    Model: coq/C16/Model.v ([parse] = readXML on the bytes of the file, every buffer read through
    [peek]); the subset, its rendering and the demanded tree: coq/C16/Render.v. *)
 From Common Require Import Prelude.
-From C16 Require Import Model Render Proofs ProofsRender ProofsMap.
+From C16 Require Import Model Render Proofs ProofsRender ProofsMap WriterModel ProofsWriter.
 
 (* ---- totality: a document or std::runtime_error, nothing else --------------------------- *)
 Theorem parse_total : forall s : str,
@@ -95,3 +95,50 @@ Example ex_last_wins :
   last_prop [97%N] [LProp [97%N] [] [] true [49%N] []; LProp [98%N] [] [] false [] [];
                     LProp [97%N] [] [] true [50%N] []] = Some [50%N].
 Proof. vm_compute. reflexivity. Qed.
+
+(* ---- the library's own Writer (WriterModel.v: state machine over the output bytes, as the source)
+   read back by the reader.  EXACT precondition: an optional writeHeader first, then nodes that are
+   NOT nested (openNode, writeProperty*, closeNode), names identifiers, values / version inside the
+   reader's value syntax for double quotes (no bare double quote, no NUL, a backslash only followed by
+   another byte -- the Writer escapes nothing).  Then the output parses to exactly what was written:
+   names, properties (std::map: sorted, last duplicate wins), children in order. *)
+Theorem writer_round_trip : forall d : wdoc,
+  wf_wdoc d = true ->
+  exists out, writer_output (ops_of d) = Some out /\ parse out = Ok (tree_of d) (length out).
+Proof. exact ProofsWriter.writer_round_trip. Qed.
+Print Assumptions writer_round_trip.
+
+(* outside that precondition the Writer's output is NOT read back:
+   nested nodes -- openNode never terminates the enclosing start tag and nothing ever sets hasContent:
+   openNode a; openNode b; closeNode; closeNode writes  <a  <b/> LF /> LF , which the reader rejects *)
+Theorem writer_nested_refuted :
+  writer_output ex_nested = Some [60; 97; 32; 32; 60; 98; 47; 62; 10; 47; 62; 10]%N /\
+  parse [60; 97; 32; 32; 60; 98; 47; 62; 10; 47; 62; 10]%N = Throw.
+Proof. vm_compute. auto. Qed.
+Print Assumptions writer_nested_refuted.
+
+(* a value containing a double quote is written unescaped: writeProperty(k, x" z="1) is read back
+   as TWO properties k=x and z=1 (silently wrong tree) *)
+Theorem writer_quote_refuted :
+  exists out, writer_output ex_inject = Some out /\
+  parse out = Ok (Node [] [] [] [Node [97%N] [([107%N], [120%N]); ([122%N], [49%N])] [] []]) (length out).
+Proof. eexists. vm_compute. auto. Qed.
+Print Assumptions writer_quote_refuted.
+
+(* Node::hasProp / getProp on the map read back from written properties: the LAST written value *)
+Theorem has_prop_written : forall k ps,
+  has_prop k (pm_of_pairs ps) = match last_pair k ps with Some _ => true | None => false end.
+Proof. exact ProofsWriter.has_prop_written. Qed.
+Print Assumptions has_prop_written.
+
+Theorem get_prop_written : forall k fallback ps,
+  get_prop_or k fallback (pm_of_pairs ps) = match last_pair k ps with Some v => v | None => fallback end.
+Proof. exact ProofsWriter.get_prop_written. Qed.
+Print Assumptions get_prop_written.
+
+(* non-vacuity: header, two nodes, a duplicate property, an empty value *)
+Example ex_writer_round_trip :
+  wf_wdoc ex_wdoc = true /\
+  tree_of ex_wdoc = Node [] [] [] [Node [97%N] [([107%N], [50%N]); ([120%N], [])] [] []; Node [98%N] [] [] []] /\
+  get_prop [107%N] (pm_of_pairs (wn_props (hd (MkWn [] []) (wd_nodes ex_wdoc)))) = [50%N].
+Proof. vm_compute. auto. Qed.
